@@ -21,7 +21,7 @@ reports=log.count('WARNING: DATA RACE')
 first=''; site=''
 if reports:
     i=log.index('WARNING: DATA RACE'); first=log[i:i+1200]
-    m=re.search(r'elrond-vm-common/([A-Za-z]+/[A-Za-z_]+\.go)', first); site=m.group(1) if m else 'unknown'
+    m=re.search(r'/repo/([A-Za-z]+/[A-Za-z_0-9]+\.go)', first); site=m.group(1) if m else 'unknown'
 try: summary=json.loads(open('.work/race.out').read().strip().splitlines()[-1])
 except Exception as e: summary={'error':'race pass produced no summary','stderr':log[:500]}
 summary.update({'reports':reports,'first_site':site,'first_report':first,'iterations_per_harness':$iters})
